@@ -96,9 +96,11 @@ fn normalise_msg(msg: &str) -> String {
 /// Signature of a panic: source file (no line number) + normalised message.
 pub fn panic_failure(loc: &str, msg: &str) -> Failure {
     let file = loc.rsplit_once(':').map(|x| x.0).unwrap_or(loc);
-    let file = match file.find("lib/src/") {
-        Some(i) => &file[i..],
-        None => file,
+    let file = match (file.find("lib/src/"), file.find("/library/")) {
+        (Some(i), _) => &file[i..],
+        // panics raised inside the standard library: drop the toolchain hash
+        (None, Some(i)) if file.starts_with("/rustc/") => &file[i + 1..],
+        _ => file,
     };
     Failure {
         sig: format!("panic:{}:{}", file, normalise_msg(msg)),
